@@ -90,7 +90,7 @@ def check(run):
     sessions = [refexp.gen_session(rng, nops=rng.randrange(20, 120), maxes=[1, 2, 3]) for _ in range(150 if quick else 5000)]
     res = E.run_sessions(run, sessions)
     for s, r in zip(sessions, res):
-        run.case(s[0][:200], True)
+        run.case(s[0][:200], True, key=s[0])
         bad = E.judge_files(s, r, tag="stream")
         for oi, lg in r["lean"].items():
             if lg and " #" in lg:
